@@ -1849,7 +1849,7 @@ def gen_program(seed, index, kind=None, only=None):
     if kind != 'normal':
         end, expect = ending(g, sc, kind)
         stmts += end
-    elif r.random() < 0.2:
+    elif r.random() < 0.08:
         # main returns an Int32: the exit status
         code = r.choice([0, 3, 77, 255, 256, -1])
         stmts.append(lit(T_I32, code))
